@@ -36,3 +36,10 @@ Theorem C08_out_of_range_rejected_partial : forall d o,
   export_rows d o = Err "ValueError"%string.
 Proof. exact range_validation. Qed.
 Print Assumptions C08_out_of_range_rejected_partial.
+
+(* obligation regenerated from the source on every run: the code this property runs through keeps exactly the state the
+   model knows (no new attribute, class-level table, module-level binding or caching decorator), see proofs/State*Proofs.v *)
+From KV Require Import StateGen StateBase StateExportProofs StateDocumentProofs.
+Theorem C08_state_as_modelled : state_export = modelled_state_export /\ state_document = modelled_state_document.
+Proof. exact (conj state_export_as_modelled state_document_as_modelled). Qed.
+Print Assumptions C08_state_as_modelled.
